@@ -65,6 +65,18 @@ def run(ctx):
             if not r.get("equal"):
                 ctx.violation("C01:tree-differs:" + c["transport"] + (":resumed" if c.get("prior") else ""),
                               f"both endpoints reported success but the output tree differs: {r.get('diff')}", {"case": G.strip(c), "result": r})
+    # one sender process, two receivers (what `thru host` does): the first transfer is cancelled while one of its chunk reads is queued
+    # in the shared read pool; the read workers' schedule is scripted so that the abandoned read completes late. The second transfer
+    # must deliver the source bytes (or fail), whatever became of the first one's buffers.
+    rcs, sres = G.run_xfer(ctx, exe, "stalebuf", [{"mode": "stalebuf", "name": f"stale-{i}"} for i in range(3)], timeout=120)
+    ctx.oblige("harness:stalebuf", rcs == 0 and len(sres) == 3, ctx.harness_stderr[-300:])
+    for r in sres:
+        if r.get("note"):
+            ctx.oblige(f"run:{r['name']}", False, r["note"][:200])
+        elif r.get("sender_ok") and r.get("recv_ok") and not r.get("equal"):
+            ctx.violation("C01:tree-differs:recycled-buffer", "a transfer that ran after another one of the same sender process was cancelled reported success on both sides but delivered "
+                          f"other bytes: {r.get('diff')} (chunk buffer recycled into it while the cancelled transfer's read was still pending: {r.get('buffer_recycled_into_b')})",
+                          {"scenario": "stalebuf", "result": r})
     bigs = G.big_cases(rng, ctx.tier == "thorough")
     rcb, bres = G.run_xfer(ctx, exe, "big", bigs, timeout=600)
     ctx.oblige("harness:big", rcb == 0 and len(bres) == len(bigs), ctx.harness_stderr[-300:])
